@@ -81,7 +81,12 @@ func (r *Reader) Close() {
 // readBox reads an ISOBMFF box
 func (r *Reader) readBox() (b box, err error) {
 	// Read box size and box type
-	buf, err := r.peek(16)
+	// the header is 8 bytes; only the 64-bit size form needs 16 (the last box of a file may be
+	// shorter than that)
+	buf, err := r.peek(8)
+	if err == nil && bmffEndian.Uint32(buf[:4]) == 1 {
+		buf, err = r.peek(16)
+	}
 	if err != nil {
 		return b, errors.Wrap(ErrBufLength, "readBox")
 	}
